@@ -69,6 +69,16 @@ func init() {
 		if len(cases) == 0 {
 			return
 		}
+		// The corpora state what the checker does on the reference tree. On an
+		// edited tree a patch may still apply and mean something else, so an
+		// unexpected outcome there is listed, not raised; and a tree that
+		// already violates the property is reported as such without the
+		// self-test on top of it.
+		if c.hasNewFindings() {
+			fmt.Println("  variants: skipped, the analysed tree itself is reported")
+			return
+		}
+		onReference := c.isReferenceTree()
 		self, err := os.Executable()
 		if err != nil {
 			c.checkError("variants: cannot locate the analyzer binary: " + err.Error())
@@ -80,7 +90,7 @@ func init() {
 			err        bool
 		}
 		results := make([]result, len(cases))
-		sem := make(chan struct{}, 4)
+		sem := make(chan struct{}, 8)
 		var wg sync.WaitGroup
 		for i, vc := range cases {
 			wg.Add(1)
@@ -142,8 +152,10 @@ func init() {
 		for _, r := range results {
 			c.Variants = append(c.Variants, r.id+" — "+r.status)
 			fmt.Printf("  variant %-60s %s\n", r.id, r.status)
-			if r.err {
+			if r.err && onReference {
 				c.checkError("self-test variant " + r.id + ": " + r.status)
+			} else if r.err {
+				c.Variants[len(c.Variants)-1] += " (edited tree: listed only)"
 			}
 			if strings.HasPrefix(r.status, "fired") || strings.HasPrefix(r.status, "silent") {
 				fired++
@@ -163,4 +175,38 @@ func firstLine(s string) string {
 		s = s[:160]
 	}
 	return s
+}
+
+// isReferenceTree: the analysed tree is the commit the corpora were made
+// for (recorded in REFERENCE_COMMIT) with no tracked file modified.
+func (c *Ctx) isReferenceTree() bool {
+	want, err := os.ReadFile(filepath.Join(c.Verif, "REFERENCE_COMMIT"))
+	if err != nil {
+		return true
+	}
+	head, err := exec.Command("git", "-C", c.Repo, "rev-parse", "HEAD").Output()
+	if err != nil {
+		return true // not a git checkout: nothing says it was edited
+	}
+	if strings.TrimSpace(string(head)) != strings.TrimSpace(string(want)) {
+		return false
+	}
+	st, err := exec.Command("git", "-C", c.Repo, "status", "--porcelain", "--untracked-files=no").Output()
+	return err != nil || strings.TrimSpace(string(st)) == ""
+}
+
+// hasNewFindings: a finding that is not listed as known.
+func (c *Ctx) hasNewFindings() bool {
+	for _, f := range c.Findings {
+		known := false
+		for _, k := range c.Known {
+			if k.Kind == "finding" && k.Prop == c.Prop && k.Key == f.fullKey() {
+				known = true
+			}
+		}
+		if !known {
+			return true
+		}
+	}
+	return false
 }
